@@ -11,6 +11,7 @@ import (
 	"mime/multipart"
 	"net/http"
 	"net/url"
+	"strconv"
 	"strings"
 )
 
@@ -209,11 +210,46 @@ func c20GCSSingle(r *Run, cfg *Stream) {
 			return
 		}
 	}
+	if !r.Failed() && r.Index%8 == 3 {
+		c20GCSOwnKeyNames(r, w)
+	}
 	if !r.Failed() && c20GCSProbe(r, w, m, "at the end") {
 		c20Batch(r, w, m, r.T.S("prog.0"))
 	}
 	r.nontrivial = true
 	r.Sample = map[string]interface{}{"mode": "gcs-single", "store": store, "requests": n, "store_errors": inject}
+}
+
+// c20GCSOwnKeyNames: buckets and objects named like the keys the emulator itself might use
+// (a bucket "upload", objects named like the id of their own resumable upload session).
+func c20GCSOwnKeyNames(r *Run, w *GCSWorld) {
+	for _, b := range []string{"upload", "upload:", "o", "b"} {
+		w.CreateBucket(b)
+	}
+	_, idp := w.ResumableStart(upSpec{Bucket: "scr", Name: "idprobe", ContentType: "text/plain"})
+	cur, err := strconv.Atoi(idp)
+	if err != nil {
+		return // session ids are not numbers: nothing to aim at
+	}
+	for i, b := range []string{"upload", "upload:", "o"} {
+		name := strconv.Itoa(cur + 1 + i)
+		resp, id := w.ResumableStart(upSpec{Bucket: b, Name: name, ContentType: "text/plain"})
+		if resp.Status != 200 {
+			r.Fail("own-key-names", "", "resumable start for %s/%s: HTTP %d", b, name, resp.Status)
+			return
+		}
+		if id == name {
+			r.Probe("c20.object_named_like_its_upload_id")
+		}
+		if resp = w.ResumableChunk(b, id, []byte("12345"), 0, 5, false); resp.Status != 200 {
+			r.Fail("own-key-names", "", "final chunk of %s/%s (session %s): HTTP %d %s", b, name, id, resp.Status, shortVal(string(resp.Body)))
+			return
+		}
+		if g := w.GetMedia(b, name, 0); g.Status != 200 || string(g.Body) != "12345" {
+			r.Fail("own-key-names", "", "download of %s/%s: HTTP %d %q", b, name, g.Status, shortVal(string(g.Body)))
+			return
+		}
+	}
 }
 
 // c20Batch: one sub-response per part, equal to what the same request returns on its own.
